@@ -1,11 +1,11 @@
 package main
 
 import (
-	"reflect"
 	"fmt"
 	"os"
 	"os/exec"
 	"path/filepath"
+	"reflect"
 	"runtime"
 	"sort"
 	"strings"
